@@ -1,5 +1,5 @@
 use crate::{
-    geometry::{Point, PointExt},
+    geometry::Point,
     primitives::{
         common::LineSide,
         line::{
@@ -95,8 +95,9 @@ impl ParallelsIterator {
         // diagonal line of the same perceived width.
         // 64 bit integers are used, because the threshold doesn't fit into 32 bits for long lines
         // with a large stroke width.
-        let thickness_threshold =
-            (i64::from(thickness) * 2).pow(2) * i64::from(line.delta().length_squared());
+        let delta = line.delta();
+        let length_squared = i64::from(delta.x).pow(2) + i64::from(delta.y).pow(2);
+        let thickness_threshold = (i64::from(thickness) * 2).pow(2) * length_squared;
         let thickness_accumulator =
             (parallel_parameters.error_step.minor + parallel_parameters.error_step.major) / 2;
 
